@@ -279,4 +279,4 @@ def _gram_disc(msg):
 
 
 def plan(tier, seed):
-  return c06.families(check)
+  return c06.families(check, thorough=tier == "thorough")
